@@ -20,12 +20,20 @@ def queries(tier):
         q('gcd_u8_%s' % be, 'h_gcd.c', {'T': 'u8', 'BITS': 8, 'OPBITS': 8, 'MODE': 0}, 14, 300, backend=be)
         q('red_u8_%s' % be, 'h_gcd.c', {'T': 'u8', 'BITS': 8, 'OPBITS': 8, 'MODE': 1}, 14, 300, backend=be)
     for dims in (2, 3, 4):
-        for mode, nm in ((0, 'ops'), (1, 'preds'), (2, 'order'), (3, 'at')):
+        for g, gn in ((0, 'lin'), (1, 'mul'), (2, 'div'), (3, 'mod')):
+            q('v%d_ops_%s' % (dims, gn), 'h_vec.c', {'DIMS': dims, 'MODE': 0, 'GROUP': g}, 10, 300)
+        for mode, nm in ((1, 'preds'), (2, 'order'), (3, 'at')):
             q('v%d_%s' % (dims, nm), 'h_vec.c', {'DIMS': dims, 'MODE': mode}, 6, 300)
-    q('v3_cross', 'h_vec.c', {'DIMS': 3, 'MODE': 4, 'CB': 4}, 6, 300)
+    q('v3_cross_cb2', 'h_vec.c', {'DIMS': 3, 'MODE': 4, 'CB': 2}, 6, 300, backend='kissat')
     q('v_ctor', 'h_vec.c', {'DIMS': 4, 'MODE': 5}, 6, 300)
-    for mode, nm in ((0, 'mulv'), (1, 'transpose'), (2, 'mulm'), (3, 'assoc'), (4, 'ops')):
-        q('m4_%s' % nm, 'h_mat.c', {'MODE': mode, 'EB': 2}, 18, 300, mem_gb=8)
+    for mode, nm in ((0, 'mulv'), (1, 'transpose')):
+        q('m4_%s' % nm, 'h_mat.c', {'MODE': mode}, 18, 300, mem_gb=8)
+    for eb in (1, 2):
+        for be in ('', 'kissat'):
+            q('m4_mulm_eb%d_%s' % (eb, be), 'h_mat.c', {'MODE': 2, 'EB': eb}, 18, 300, mem_gb=8, backend=be)
+            q('m4_assoc_eb%d_%s' % (eb, be), 'h_mat.c', {'MODE': 3, 'EB': eb}, 18, 300, mem_gb=8, backend=be)
+    for g, gn in ((0, 'lin'), (1, 'mul'), (2, 'div'), (3, 'mod')):
+        q('m4_ops_%s' % gn, 'h_mat.c', {'MODE': 4, 'GROUP': g}, 18, 300, mem_gb=8)
     q('random_int_b8', 'h_random.c', {'MODE': 0, 'BLOCK': 8}, 12, 300)
     q('random_data_b4_3_2', 'h_random.c', {'MODE': 1, 'BLOCK': 4, 'N1': 3, 'N2': 2}, 12, 300)
     q('random_str_b4_5', 'h_random.c', {'MODE': 2, 'BLOCK': 4, 'N1': 5}, 12, 300)
